@@ -231,7 +231,7 @@ func stressRun(run *ev.Run, r, gmp, nl, perClient int, dnsMode bool, seenSig map
 	nUDP := 4 + (r*5)%13
 	nTCP := 4 + (r*7)%13
 	var reqs sync.Map
-	var sentCount, lostWait int64
+	var sentCount, lostWait, keepAlives int64
 	var inflight, maxInflight int64
 	var wg sync.WaitGroup
 	const W = 8
@@ -296,6 +296,15 @@ func stressRun(run *ev.Run, r, gmp, nl, perClient int, dnsMode bool, seenSig map
 				}
 			}
 			atomic.AddInt64(&sentCount, 1)
+			if n%23 == 11 {
+				// a keep-alive as clients behind NATs send them (RFC 5626): CRLF CRLF, which is no message
+				atomic.AddInt64(&keepAlives, 1)
+				if tcp {
+					conn.Send([]byte("\r\n\r\n"), "")
+				} else {
+					udp.Send(fmt.Sprintf("%s:%d", env.listeners[l], wire.UDPPort), []byte("\r\n\r\n"), "")
+				}
+			}
 			if tcp {
 				conn.Send(raw, id)
 			} else {
@@ -484,7 +493,7 @@ func stressRun(run *ev.Run, r, gmp, nl, perClient int, dnsMode bool, seenSig map
 	for l, c := range perListener {
 		run.EvalN(fmt.Sprintf("run%d|gmp%d|listener%d|udp%d|tcp%d|dns%v", r, gmp, l, nUDP, nTCP, dnsMode), int64(c))
 	}
-	run.Observe(fmt.Sprintf("run%d", r), map[string]any{"config": cfgDesc, "sent": sentCount, "delivered_exactly_once": okc, "lost": lost, "excused_near_disturbance": excused, "duplicates": dup,
+	run.Observe(fmt.Sprintf("run%d", r), map[string]any{"config": cfgDesc, "sent": sentCount, "keep_alives_sent": keepAlives, "delivered_exactly_once": okc, "lost": lost, "excused_near_disturbance": excused, "duplicates": dup,
 		"max_in_flight": maxInflight, "tcp_backend_resets": resets, "dns_membership_changes": dnsChanges, "udp_kernel_drops": drops, "client_wait_timeouts": lostWait})
 	if run.WantSample() {
 		run.Sample(map[string]any{"config": cfgDesc, "sent": sentCount, "delivered_exactly_once": okc, "tcp_backend_resets_during_load": resets})
